@@ -901,6 +901,383 @@ def exact_gp_cases(ctx, drv, tier):
             report_model_fails(ctx, fails, p, lambda p=p: bool(run_exact_gp(None, None, p, want_driver=False)))
 
 
+# ------------------------------------------------------------------------------------------------ posterior checks shared by
+# the NaN-policy grid and the multi-step histories
+
+def posterior_checks(ctx, drv, model, lik, tx, sx, obs, tag, label, p, want_driver=True, call=None, compare=True):
+    """Validity of everything an exact GP hands out for test points `sx` *in its current state*:
+    prior, posterior, marginal symmetric PSD; prior - posterior PSD; variance floor; posterior = exact Schur complement
+    of the kernel blocks evaluated with the *current* parameters over the observed training rows `obs` (bool mask).
+    `call(x)` produces the posterior distribution (default: model(x)).  Returns list of fail tuples."""
+    import torch
+    import gpytorch
+    fails = []
+    n, m = tx.shape[0], sx.shape[0]
+    call = call or (lambda x: model(x))
+    with torch.no_grad(), warnings.catch_warnings():
+        warnings.simplefilter("ignore")
+        post_d = call(sx)
+        post = post_d.covariance_matrix.clone()
+        var, sd = post_d.variance.clone(), post_d.stddev.clone()
+        marg = lik(post_d).covariance_matrix.clone()
+        # reference blocks from the modules as they are NOW (no prediction-strategy caches involved)
+        with gpytorch.settings.lazily_evaluate_kernels(False):
+            Ktt = to_dense_(model.covar_module(tx))
+            Krect = to_dense_(model.covar_module(sx, torch.cat([tx, sx], 0)))
+        prior = Krect[:, n:]
+        prior = (prior + prior.T) / 2
+        noise = lik.noise.reshape(-1)[0].item()
+    scale = max(torch.linalg.eigvalsh(prior).abs().max().item(), 1e-300)
+    for name, Mx in (("posterior", post), ("marginal", marg), ("prior-minus-posterior", prior - post)):
+        sm, info = cov_screen(Mx, scale)
+        for sym, detail in sm:
+            mag = info.get("asym_rel", 0.0) if sym == "asymmetric" else max(abs(min(info.get("rel_min_eig", 0.0), 0.0)), EIG_TOL)
+            fails.append((f"{label}-{name}-{sym}", f"{tag}: {name} covariance {detail}", sym, mag, f"{label}/{name}"))
+    b = gpytorch.settings.min_variance.value(torch.double)
+    if (var < b).any() or torch.isnan(sd).any():
+        fails.append((f"{label}-variance-below-min", f"{tag}: variance {var.tolist()} below min_variance {b} / stddev {sd.tolist()}"))
+    if want_driver and drv is not None and compare:
+        o = obs.nonzero().reshape(-1)
+        A = Ktt[o][:, o] + noise * torch.eye(len(o))
+        B = Krect[:, :n][:, o].transpose(-1, -2).contiguous()
+        D = Krect[:, n:]
+        if len(o) > 0:
+            kappa = torch.linalg.eigvalsh((A + A.T) / 2).abs().max().item() / noise
+            tol = 1e3 * max(n, 1) * kappa * 2.0 ** -52 * scale + 1e-12
+
+            def cb(rep, post=post, tol=tol):
+                if rep in ("singular", "bad"):
+                    ctx.broke("correspondence", "schur", f"{tag}: driver says {rep}")
+                    return
+                rows, _ = C.parse_mat(rep.split())
+                ex = torch.tensor([[float(v) for v in r] for r in rows])
+                diff = (ex - post).abs().max().item()
+                ctx.count("schur_compared")
+                if diff > tol:
+                    ctx.fail(f"{label}-posterior-vs-schur",
+                             f"{tag}: posterior covariance differs from the exact Schur complement D - B^T A^-1 B of the kernel "
+                             f"blocks of the CURRENT parameters over the observed training rows by {diff:.3e} (tol {tol:.1e})", p)
+            drv.ask(f"schur {rows_tokens(rat_rows(A))} {rows_tokens(rat_rows(B))} {rows_tokens(rat_rows(D))}", cb)
+    return fails, {"post": post, "var": var, "prior": prior, "scale": scale}
+
+
+def to_dense_(x):
+    return x.to_dense() if hasattr(x, "to_dense") else x
+
+
+# ------------------------------------------------------------------------------------------------ NaN policies
+
+def nan_payload(rng, kind, policy):
+    import torch
+    g = torch.Generator().manual_seed(rng.torch_seed())
+    n = rng.choice([4, 5, 6, 7])
+    m = rng.choice([2, 3, 4])
+    d = rng.choice([1, 2])
+    tx = torch.randn(n, d, generator=g)
+    ty = torch.randn(n, generator=g)
+    sx = torch.randn(m, d, generator=g)
+    k = rng.choice([1, 2, max(1, n // 2)])
+    missing = sorted(rng.sample(range(n), k))
+    flavour = rng.choice(["test_near_missing", "test_on_missing", "plain"])
+    if flavour == "test_near_missing":
+        sx[0] = tx[missing[0]] + 0.05
+    elif flavour == "test_on_missing":
+        sx[0] = tx[missing[0]]
+    s = rng.choice([1.0, 10.0])
+    return {"kind": "nan_policy", "policy": policy, "kernel": kind, "hp": {"s": s, "l": rng.choice([0.5, 1.0, 2.0]), "mean": 0.0},
+            "noise": s * rng.choice([3e-2, 1e-1]), "flavour": flavour, "missing": missing,
+            "train_x": tx.tolist(), "train_y": ty.tolist(), "test_x": sx.tolist()}
+
+
+def run_nan_policy(ctx, drv, p, want_driver=True):
+    import torch
+    import gpytorch
+    tx, sx = torch.tensor(p["train_x"]), torch.tensor(p["test_x"])
+    ty_full = torch.tensor(p["train_y"])
+    ty = ty_full.clone()
+    ty[p["missing"]] = float("nan")
+    obs = ~torch.isnan(ty)
+    tag = f"exact GP {p['kernel']} observation_nan_policy('{p['policy']}') missing={p['missing']} {p['flavour']}"
+    label = f"nanpolicy-{p['policy']}"
+    model, lik = _exact_model(p["kernel"], p["hp"], tx, ty, p["noise"])
+    with gpytorch.settings.observation_nan_policy(p["policy"]):
+        fails, r = posterior_checks(ctx, drv, model, lik, tx, sx, obs, tag, label, p, want_driver)
+        # prediction twice (second call goes through the caches)
+        with torch.no_grad(), warnings.catch_warnings():
+            warnings.simplefilter("ignore")
+            again = model(sx).covariance_matrix
+    if (again - r["post"]).abs().max().item() > 1e-9 * r["scale"]:
+        fails.append((f"{label}-second-call-differs", f"{tag}: second prediction differs by {(again - r['post']).abs().max().item():.3e}"))
+    # more data, less variance: the model that observed ALL rows can only be more certain
+    mfull, _ = _exact_model(p["kernel"], p["hp"], tx, ty_full, p["noise"])
+    with torch.no_grad(), warnings.catch_warnings():
+        warnings.simplefilter("ignore")
+        cov_full = mfull(sx).covariance_matrix
+    dec = (cov_full.diagonal() - r["var"]).max().item()
+    if dec > MONO_TOL * r["scale"]:
+        fails.append((f"{label}-less-data-less-variance",
+                      f"{tag}: a posterior variance is {dec:.3e} BELOW that of the same model with every target observed "
+                      f"(scale {r['scale']:.3e}): conditioning on fewer observations must not reduce uncertainty"))
+    sm, info = cov_screen(r["post"] - cov_full, r["scale"])
+    for sym, detail in sm:
+        if sym == "indefinite":
+            fails.append((f"{label}-loewner", f"{tag}: posterior(missing) - posterior(all observed) is not PSD: {detail}",
+                          sym, max(abs(info.get("rel_min_eig", 0.0)), EIG_TOL), f"{label}/loewner"))
+    # deletion semantics: same as the model trained on the observed rows only
+    mdel, _ = _exact_model(p["kernel"], p["hp"], tx[obs], ty_full[obs], p["noise"])
+    with torch.no_grad(), warnings.catch_warnings():
+        warnings.simplefilter("ignore")
+        cov_del = mdel(sx).covariance_matrix
+    dd = (cov_del - r["post"]).abs().max().item()
+    if dd > 1e-8 * r["scale"]:
+        fails.append((f"{label}-vs-deletion", f"{tag}: posterior covariance differs from the model trained on the observed rows only by {dd:.3e}"))
+    return fails
+
+
+def nan_policy_cases(ctx, drv, tier):
+    rng = ctx.rng("nanpolicy")
+    reps = 5 if tier == "quick" else 40
+    for policy in ("mask", "fill"):
+        for kind in ("scale_rbf", "scale_matern1.5", "rbf_plus_linear"):
+            for _ in range(reps):
+                p = nan_payload(rng, kind, policy)
+                try:
+                    fails = run_nan_policy(ctx, drv, p)
+                except Exception as e:
+                    ctx.broke("correspondence", f"nanpolicy:{policy}/{kind}", f"{type(e).__name__}: {e}"[:600])
+                    continue
+                ctx.case(f"nanpolicy {policy} {kind} {p['flavour']} missing={p['missing']} n={len(p['train_x'])} x0={p['train_x'][0]}",
+                         sample={"kind": "nan_policy", "policy": policy, "kernel": kind, "missing": p["missing"], "flavour": p["flavour"]})
+                report_model_fails(ctx, fails, p, lambda p=p: bool(run_nan_policy(None, None, p, want_driver=False)))
+
+
+# ------------------------------------------------------------------------------------------------ multi-step histories
+
+HIST_KINDS = ["exact", "exact_fast_pred_var", "model_list", "model_list_fast_pred_var", "wrapper_exact", "wrapper_exact_fast_pred_var",
+              "svgp_whitened", "svgp_unwhitened", "wrapper_svgp"]
+HIST_OPS = ["load_state_dict", "set_train_data", "train_step_eval"]
+
+
+def history_payload(rng, kind):
+    import torch
+    g = torch.Generator().manual_seed(rng.torch_seed())
+    d = rng.choice([1, 2])
+    n = rng.choice([4, 5, 6])
+    m = rng.choice([2, 3])
+
+    def hp():
+        return {"s": rng.choice([0.2, 1.0, 5.0, 25.0]), "l": rng.choice([0.3, 1.0, 3.0]), "mean": 0.0}
+    ops = [rng.choice(HIST_OPS) for _ in range(rng.choice([1, 2, 3]))]
+    if not kind.startswith(("exact", "model_list", "wrapper_exact")):
+        ops = [o if o != "set_train_data" else "load_state_dict" for o in ops]
+    p = {"kind": "history", "model": kind, "ops": ops, "d": d,
+         "train_x": torch.randn(n, d, generator=g).tolist(), "train_y": torch.randn(n, generator=g).tolist(),
+         "train_x2": torch.randn(n + 1, d, generator=g).tolist(), "train_y2": torch.randn(n + 1, generator=g).tolist(),
+         "test_x": torch.randn(m, d, generator=g).tolist(),
+         "hps": [hp() for _ in range(len(ops) + 1)], "hps_b": [hp() for _ in range(len(ops) + 1)],
+         "noise_rel": [rng.choice([3e-2, 1e-1, 0.5]) for _ in range(len(ops) + 1)],
+         "kernel": rng.choice(["scale_rbf", "scale_matern1.5"])}
+    if rng.random() < 0.5:
+        p["test_x"][0] = p["train_x"][0]
+    if kind.startswith(("svgp", "wrapper_svgp")):
+        mz = rng.choice([2, 3, 4])
+        p["inducing"] = (torch.randn(mz, d, generator=g) * 1.5).tolist()
+        p["vparams"] = []
+        for _ in range(len(ops) + 1):
+            Lc = torch.tril(torch.randn(mz, mz, generator=g)) * 0.7
+            Lc = Lc - torch.diag(torch.diag(Lc)) + torch.diag(torch.rand(mz, generator=g) + 0.1)
+            p["vparams"].append({"vmean": torch.randn(mz, generator=g).tolist(), "vchol": Lc.tolist()})
+    return p
+
+
+def _hist_build(p, j):
+    """(container, leaves) for parameter set j.  leaves: list of dict(model, lik, tx, kind) that hand out covariances;
+    container: the top-level module that receives load_state_dict / train() / eval()."""
+    import torch
+    import gpytorch
+    kind = p["model"]
+    tx, ty = torch.tensor(p["train_x"]), torch.tensor(p["train_y"])
+
+    class Wrap(gpytorch.Module):
+        def __init__(self, inner, lik):
+            super().__init__()
+            self.inner = inner
+            self.inner_likelihood = lik
+
+        def forward(self, x):
+            return self.inner(x)
+    if kind.startswith(("exact", "wrapper_exact")):
+        hp = p["hps"][j]
+        m, lik = _exact_model(p["kernel"], hp, tx, ty, hp["s"] * p["noise_rel"][j])
+        leaves = [{"model": m, "lik": lik, "exact": True}]
+        top = m if kind.startswith("exact") else Wrap(m, lik).eval()
+        return top, leaves
+    if kind.startswith("model_list"):
+        a, la = _exact_model(p["kernel"], p["hps"][j], tx, ty, p["hps"][j]["s"] * p["noise_rel"][j])
+        b, lb = _exact_model("scale_rbf", p["hps_b"][j], tx.flip(0).clone(), ty.flip(0).clone(), p["hps_b"][j]["s"] * p["noise_rel"][j])
+        top = gpytorch.models.IndependentModelList(a, b).eval()
+        return top, [{"model": a, "lik": la, "exact": True}, {"model": b, "lik": lb, "exact": True}]
+    # SVGP
+    q = {"inducing": p["inducing"], "vdist": "cholesky", "strategy": "unwhitened" if kind == "svgp_unwhitened" else "whitened",
+         "kernel": "rbf" if p["kernel"] == "scale_rbf" else "matern1.5", "s": p["hps"][j]["s"], "l": p["hps"][j]["l"],
+         "vmean": p["vparams"][j]["vmean"], "vchol": p["vparams"][j]["vchol"], "vstd": None}
+    m, vd = _var_model(q)
+    lik = gpytorch.likelihoods.GaussianLikelihood().eval()
+    lik.noise = p["hps"][j]["s"] * p["noise_rel"][j]
+    leaves = [{"model": m, "lik": lik, "exact": False, "vd": vd, "strategy": q["strategy"]}]
+    top = m if kind != "wrapper_svgp" else Wrap(m, lik).eval()
+    return top, leaves
+
+
+def svgp_checks(ctx, drv, leaf, sx, tag, label, p, want_driver=True):
+    import torch
+    fails = []
+    model, lik, vd = leaf["model"], leaf["lik"], leaf["vd"]
+    Z = model.variational_strategy.inducing_points.detach()
+    with torch.no_grad(), warnings.catch_warnings():
+        warnings.simplefilter("ignore")
+        q = model(sx)
+        qc = q.covariance_matrix.clone()
+        var, sd = q.variance.clone(), q.stddev.clone()
+        pc = lik(q).covariance_matrix.clone()
+        S = vd().covariance_matrix.clone()
+        Kxx = model.covar_module(sx).to_dense()
+        Kzz = model.covar_module(Z).to_dense()
+        Kzx = model.covar_module(Z, sx).to_dense()
+    scale = max(torch.linalg.eigvalsh((Kxx + Kxx.T) / 2).abs().max().item(), 1e-300)
+    sscale = max(scale, torch.linalg.eigvalsh((S + S.T) / 2).abs().max().item())
+    for name, Mx in (("q(f)", qc), ("predictive", pc)):
+        sm, info = cov_screen(Mx, sscale)
+        for sym, detail in sm:
+            mag = info.get("asym_rel", 0.0) if sym == "asymmetric" else max(abs(min(info.get("rel_min_eig", 0.0), 0.0)), EIG_TOL)
+            fails.append((f"{label}-{name}-{sym}", f"{tag}: {name} covariance {detail}", sym, mag, f"{label}/{name}"))
+    import gpytorch
+    b = gpytorch.settings.min_variance.value(torch.double)
+    if (var < b).any() or torch.isnan(sd).any():
+        fails.append((f"{label}-variance-below-min", f"{tag}: variance {var.tolist()} below min_variance {b}"))
+    jit = model.variational_strategy.jitter_val
+    mz = Z.shape[0]
+    Kj = Kzz + jit * torch.eye(mz)
+    if torch.linalg.cond(Kj).item() > 1e6:
+        ctx and ctx.count("variational_discarded_ill_conditioned")
+        return fails
+    if leaf["strategy"] == "whitened":
+        if want_driver and drv is not None:
+            L = torch.linalg.cholesky(Kj)
+            B = torch.linalg.solve_triangular(L, Kzx, upper=False)
+            Kss = Kxx + jit * torch.eye(sx.shape[0])
+            tol = 1e-8 * sscale * max(1.0, sscale / scale) + 1e-12
+
+            def cb(rep, qc=qc, tol=tol):
+                rows, _ = C.parse_mat(rep.split())
+                ex = torch.tensor([[float(v) for v in r] for r in rows])
+                diff = (ex - qc).abs().max().item()
+                ctx.count("vcov_compared")
+                if diff > tol:
+                    ctx.fail(f"{label}-vs-model", f"{tag}: q(f) covariance differs from K_xx - B^T (I - S) B evaluated with the CURRENT "
+                             f"parameters by {diff:.3e} (tol {tol:.1e})", p)
+            drv.ask(f"vcov {rows_tokens(rat_rows(Kss))} {rows_tokens(rat_rows(B))} {rows_tokens(rat_rows(S))}", cb)
+    else:
+        # unwhitened: K_xx - K_xz K_zz^-1 (K_zz - S) K_zz^-1 K_zx   (float reference; cond <= 1e6 ensured above)
+        W = torch.linalg.solve(Kj, Kzx)
+        ref = Kxx - W.T @ (Kj - S) @ W    # (the unwhitened strategy adds the jitter to K_zz only)
+        diff = (ref - qc).abs().max().item()
+        if diff > 1e-6 * sscale:
+            fails.append((f"{label}-vs-model", f"{tag}: q(f) covariance differs from K_xx - K_xz K_zz^-1 (K_zz - S) K_zz^-1 K_zx "
+                          f"evaluated with the CURRENT parameters by {diff:.3e} (scale {sscale:.3e})"))
+    return fails
+
+
+def run_history(ctx, drv, p, want_driver=True):
+    """predict -> (mutate -> predict)*, staying in eval mode except inside `train_step_eval`; every covariance handed
+    out after every step is checked for validity and against the model evaluated with the current parameters."""
+    import torch
+    import gpytorch
+    fails = []
+    kind = p["model"]
+    fpv = "fast_pred_var" in kind
+    sx = torch.tensor(p["test_x"])
+    top, leaves = _hist_build(p, 0)
+    cur_tx = [torch.tensor(p["train_x"]) if i == 0 or not kind.startswith("model_list") else torch.tensor(p["train_x"]).flip(0).clone()
+              for i in range(len(leaves))]
+
+    def predict(step):
+        out = []
+        for i, leaf in enumerate(leaves):
+            tag = f"history {kind} ops={p['ops']} after step {step} ({'initial' if step == 0 else p['ops'][step - 1]}) model#{i}"
+            label = f"history-{kind}"
+            if leaf["exact"]:
+                if kind.startswith("model_list"):
+                    def call(x, i=i):
+                        return top(*[x for _ in leaves])[i]
+                elif kind.startswith("wrapper"):
+                    def call(x):
+                        return top(x)
+                else:
+                    call = None
+                with gpytorch.settings.fast_pred_var(fpv):
+                    f, _ = posterior_checks(ctx, drv, leaf["model"], leaf["lik"], cur_tx[i], sx,
+                                            torch.ones(cur_tx[i].shape[0], dtype=torch.bool), tag, label, p, want_driver, call=call)
+            else:
+                f = svgp_checks(ctx, drv, leaf, sx, tag, label, p, want_driver)
+            out += f
+        return out
+    fails += predict(0)
+    for k, op in enumerate(p["ops"], 1):
+        if op == "load_state_dict":
+            twin, _ = _hist_build(p, k)
+            top.load_state_dict(twin.state_dict())
+        elif op == "set_train_data":
+            for i, leaf in enumerate(leaves):
+                nx, ny = torch.tensor(p["train_x2"]), torch.tensor(p["train_y2"])
+                if i == 1:
+                    nx, ny = nx.flip(0).clone(), ny.flip(0).clone()
+                leaf["model"].set_train_data(nx, ny, strict=False)
+                cur_tx[i] = nx
+        else:  # train_step_eval: enter training mode, move every raw hyperparameter, return to eval mode
+            top.train()
+            for leaf in leaves:
+                leaf["lik"].train()
+            g = torch.Generator().manual_seed(1000 + k)
+            with torch.no_grad():
+                mods = [top] + [leaf["lik"] for leaf in leaves]
+                seen = set()
+                for mod in mods:
+                    for name, prm in mod.named_parameters():
+                        if id(prm) in seen or "inducing_points" in name:
+                            continue
+                        seen.add(id(prm))
+                        if "chol_variational_covar" in name:
+                            prm.mul_(1.3)
+                        else:
+                            prm.add_(0.8 * torch.rand(prm.shape, generator=g) + 0.4)
+            top.eval()
+            for leaf in leaves:
+                leaf["lik"].eval()
+        fails += predict(k)
+    return fails
+
+
+def history_cases(ctx, drv, tier):
+    rng = ctx.rng("history")
+    reps = 5 if tier == "quick" else 40
+    dist = {}
+    for kind in HIST_KINDS:
+        for _ in range(reps):
+            p = history_payload(rng, kind)
+            try:
+                fails = run_history(ctx, drv, p)
+            except Exception as e:
+                ctx.broke("correspondence", f"history:{kind}", f"{type(e).__name__}: {e}"[:600])
+                continue
+            for o in p["ops"]:
+                dist[o] = dist.get(o, 0) + 1
+            ctx.case(f"history {kind} {p['ops']} {p['kernel']} hps={p['hps']} x0={p['train_x'][0]}",
+                     sample={"kind": "history", "model": kind, "ops": p["ops"]})
+            report_model_fails(ctx, fails, p, lambda p=p: bool(run_history(None, None, p, want_driver=False)))
+    ctx.notes["history_ops"] = dist
+
+
 # ------------------------------------------------------------------------------------------------ variational grid
 
 def _var_model(p):
@@ -1347,6 +1724,8 @@ def correspondence(ctx, want_driver=True):
     section("fixed_noise", lambda: run_fixed_noise(ctx, drv))
     section("exactgp_py", lambda: exact_gp_cases(ctx, drv, ctx.tier))
     section("variational_py", lambda: variational_cases(ctx, drv, ctx.tier))
+    section("nan_policy_py", lambda: nan_policy_cases(ctx, drv, ctx.tier))
+    section("history_py", lambda: history_cases(ctx, drv, ctx.tier))
     section("gram", lambda: gram_cases(ctx, drv, ctx.tier))
     drv.flush()
     drv.flush()
@@ -1418,6 +1797,10 @@ def replay(ctx, payload):
         return recheck_gram(case)
     if kind == "exact_gp":
         return not run_exact_gp(ctx, None, case, want_driver=False)
+    if kind == "nan_policy":
+        return not run_nan_policy(ctx, None, case, want_driver=False)
+    if kind == "history":
+        return not run_history(ctx, None, case, want_driver=False)
     if kind == "variational":
         return not run_variational(ctx, None, case, want_driver=False)
     if kind == "variance":
